@@ -425,42 +425,11 @@ Inductive seq_reads (cf : config) : list pitem -> text -> list sitem -> list val
 Lemma skipn_length_app : forall (a b : text), skipn (length a) (a ++ b) = b.
 Proof. intros a b. rewrite skipn_app, skipn_all, Nat.sub_diag. reflexivity. Qed.
 
-(* String source: scanning at position |pre| reads the values back and returns the position
-   just after the written text *)
-Lemma scan_str_seq : forall cf its rest sits vs, seq_reads cf its rest sits vs ->
-  forall pre acc,
-  scan_str cf (pre ++ print_items cf its ++ rest) (length pre) sits acc
-  = SOk (acc ++ vs) (length pre + length (print_items cf its)).
-Proof.
-  intros cf its rest sits vs H. induction H as [rest | t its rest sits vs H IH | it si its rest sits v vs Hs Hc H IH];
-    intros pre acc.
-  - simpl. rewrite app_nil_r. f_equal. lia.
-  - cbn [scan_str print_items flat_map print_item].
-    replace (pre ++ (t ++ flat_map (print_item cf) its) ++ rest)
-      with ((pre ++ t) ++ print_items cf its ++ rest)
-      by (unfold print_items; now rewrite <- !app_assoc).
-    replace (length pre + length t)%nat with (length (pre ++ t)) by (rewrite app_length; lia).
-    rewrite IH. f_equal. unfold print_items. rewrite !app_length. lia.
-  - assert (Hskip : skipn (length pre) (pre ++ print_items cf (it :: its) ++ rest)
-                    = print_item cf it ++ print_items cf its ++ rest).
-    { rewrite skipn_length_app. unfold print_items. cbn [flat_map]. now rewrite <- app_assoc. }
-    assert (Hnext : forall acc', scan_str cf (pre ++ print_items cf (it :: its) ++ rest)
-                      (length pre + length (print_item cf it)) sits acc'
-                    = SOk (acc' ++ vs) (length pre + length (print_items cf (it :: its)))).
-    { intros acc'.
-      replace (pre ++ print_items cf (it :: its) ++ rest)
-        with ((pre ++ print_item cf it) ++ print_items cf its ++ rest)
-        by (unfold print_items; cbn [flat_map]; now rewrite <- !app_assoc).
-      replace (length pre + length (print_item cf it))%nat with (length (pre ++ print_item cf it))
-        by (rewrite app_length; lia).
-      rewrite IH. f_equal. unfold print_items. cbn [flat_map]. rewrite !app_length. lia. }
-    destruct si as [t | ty | sp]; [exfalso; now apply (Hs t) | |]; cbn [scan_str]; cbn [conv_reads] in Hc;
-      rewrite Hskip, Hc, Hnext; f_equal; rewrite <- app_assoc; reflexivity.
-Qed.
+(* ------------------------------------------------------------------ literal pieces *)
 
-(* File source: literal pieces must be matched by scanf.  White space in a literal skips ALL white
-   space of the input, so a literal is matched exactly by its own text when it does not end in white
-   space, or when what follows it does not start with white space. *)
+(* White space in a literal skips ALL white space of the input, so a run of literal text is matched
+   exactly by its own text when it does not end in white space, or when what follows it does not
+   start with white space. *)
 Definition lws (x : text) : text := fst (skip_ws x 0).
 
 Definition head_nonspace (x : text) : Prop :=
@@ -493,8 +462,8 @@ Proof.
 Qed.
 
 Lemma match_lit_own_text : forall t inp, lit_ok t inp ->
-  match_lit t (t ++ inp) = inp /\
-  (match t with c :: _ => is_space c = true | [] => False end -> match_lit t (lws (t ++ inp)) = inp).
+  match_lit t (t ++ inp) = (inp, true) /\
+  (match t with c :: _ => is_space c = true | [] => False end -> match_lit t (lws (t ++ inp)) = (inp, true)).
 Proof.
   induction t as [|c r IH]; intros inp Hok.
   - split; [reflexivity|intros []].
@@ -502,61 +471,146 @@ Proof.
     { destruct Hok as [H|H]; [|now right]. destruct r as [|d r']; [left; exact I|left; exact H]. }
     destruct (IH inp Hok') as [IH1 IH2].
     cbn [match_lit app]. destruct (is_space c) eqn:Ec.
-    + (* white space in the literal: all white space of the input goes *)
-      assert (Hcore : match_lit r (lws (r ++ inp)) = inp).
+    + assert (Hcore : match_lit r (lws (r ++ inp)) = (inp, true)).
       { destruct r as [|d r'].
-        - cbn [app match_lit]. destruct Hok as [H|H]; [simpl in H; congruence|]. now apply lws_nonspace.
+        - cbn [app match_lit]. destruct Hok as [H|H]; [simpl in H; congruence|]. now rewrite lws_nonspace.
         - destruct (is_space d) eqn:Ed.
           + apply IH2. reflexivity.
           + rewrite lws_nonspace by (cbn [app]; exact Ed). exact IH1. }
       split.
       * fold (lws (c :: r ++ inp)). rewrite (lws_cons_space c _ Ec). exact Hcore.
       * intros _. cbn [app]. try rewrite (lws_cons_space c _ Ec).
-        change (match_lit r (lws (lws (r ++ inp))) = inp). rewrite lws_idem. exact Hcore.
+        change (match_lit r (lws (lws (r ++ inp))) = (inp, true)). rewrite lws_idem. exact Hcore.
     + split; [|intros H; congruence]. rewrite N.eqb_refl. exact IH1.
 Qed.
 
-Lemma match_lit_ok : forall t inp, lit_ok t inp -> match_lit t (t ++ inp) = inp.
+Lemma match_lit_ok : forall t inp, lit_ok t inp -> match_lit t (t ++ inp) = (inp, true).
 Proof. intros t inp H. apply (match_lit_own_text t inp H). Qed.
 
-Definition lit_plain (t : text) : Prop := Forall (fun c => is_space c = false) t.
+(* the text of a list of pieces, and the condition under which scanning them over that text
+   consumes exactly it *)
+Definition piece_text (pc : lpiece) : text := match pc with LRun u => u | LPct => [c_pct] end.
+Definition pieces_text (ps : list lpiece) : text := flat_map piece_text ps.
 
-Lemma lit_plain_ends : forall t, lit_plain t -> ends_nonspace t.
+Lemma lit_pieces_text : forall t, pieces_text (lit_pieces t) = t.
 Proof.
-  induction t as [|c r IH]; intros H; [exact I|]. inversion H as [|? ? Hc Hr]; subst.
-  destruct r as [|d r']; [exact Hc|]. cbn [ends_nonspace]. apply IH. exact Hr.
+  induction t as [|c r IH]; [reflexivity|]. cbn [lit_pieces].
+  destruct (N.eqb_spec c c_pct) as [->|Hc].
+  - unfold pieces_text in *. cbn [flat_map piece_text app]. now rewrite IH.
+  - unfold pieces_text in *. destruct (lit_pieces r) as [|[u|] ps]; cbn [flat_map piece_text app] in *; now rewrite <- IH.
+Qed.
+
+Fixpoint pieces_ok (ps : list lpiece) (after : text) : Prop :=
+  match ps with
+  | [] => True
+  | LRun u :: r => lit_ok u (pieces_text r ++ after) /\ pieces_ok r after
+  | LPct :: r => pieces_ok r after
+  end.
+
+(* one piece over its own text: everything of it is consumed, the advance is its length *)
+Lemma scan_piece_own : forall cf pc after, cf_pct_measure cf = true ->
+  (match pc with LRun u => lit_ok u after | LPct => True end) ->
+  scan_piece cf pc (piece_text pc ++ after) = Some (after, length (piece_text pc)).
+Proof.
+  intros cf pc after Hpct H. destruct pc as [u|]; cbn [scan_piece piece_text].
+  - rewrite match_lit_ok by assumption. f_equal. f_equal.
+    destruct (cf_lit_measure cf); cbn [andb]; [rewrite app_length; lia | reflexivity].
+  - cbn [app skip_ws]. replace (is_space c_pct) with false by reflexivity. cbn [fst].
+    rewrite N.eqb_refl, Hpct. f_equal. f_equal. cbn [length]. lia.
+Qed.
+
+Lemma scan_lit_str_own : forall cf ps after, cf_pct_measure cf = true -> pieces_ok ps after ->
+  forall pre, scan_lit_str cf (pre ++ pieces_text ps ++ after) (length pre) ps
+              = Some (length pre + length (pieces_text ps))%nat.
+Proof.
+  intros cf ps after Hpct. induction ps as [|pc r IH]; intros Hok pre.
+  - simpl. f_equal. lia.
+  - cbn [scan_lit_str]. unfold pieces_text. cbn [flat_map]. fold (pieces_text r).
+    rewrite <- app_assoc. rewrite skipn_length_app.
+    assert (Hpc : match pc with LRun u => lit_ok u (pieces_text r ++ after) | LPct => True end)
+      by (destruct pc; cbn [pieces_ok] in Hok; [exact (proj1 Hok) | exact I]).
+    assert (Hr : pieces_ok r after) by (destruct pc; cbn [pieces_ok] in Hok; [exact (proj2 Hok) | exact Hok]).
+    rewrite (scan_piece_own cf pc _ Hpct Hpc).
+    replace (pre ++ piece_text pc ++ pieces_text r ++ after) with ((pre ++ piece_text pc) ++ pieces_text r ++ after)
+      by now rewrite <- app_assoc.
+    replace (length pre + length (piece_text pc))%nat with (length (pre ++ piece_text pc)) by (rewrite app_length; lia).
+    rewrite (IH Hr). f_equal. rewrite !app_length. lia.
+Qed.
+
+Lemma scan_lit_file_own : forall cf ps after, cf_pct_measure cf = true -> pieces_ok ps after ->
+  forall pos, scan_lit_file cf (pieces_text ps ++ after) pos ps
+              = Some (after, (pos + length (pieces_text ps))%nat).
+Proof.
+  intros cf ps after Hpct. induction ps as [|pc r IH]; intros Hok pos.
+  - simpl. f_equal. f_equal. lia.
+  - cbn [scan_lit_file]. unfold pieces_text. cbn [flat_map]. fold (pieces_text r).
+    rewrite <- app_assoc.
+    assert (Hpc : match pc with LRun u => lit_ok u (pieces_text r ++ after) | LPct => True end)
+      by (destruct pc; cbn [pieces_ok] in Hok; [exact (proj1 Hok) | exact I]).
+    assert (Hr : pieces_ok r after) by (destruct pc; cbn [pieces_ok] in Hok; [exact (proj2 Hok) | exact Hok]).
+    rewrite (scan_piece_own cf pc _ Hpct Hpc). rewrite (IH Hr). f_equal. f_equal. rewrite app_length. lia.
 Qed.
 
 (* every literal of the sequence is matched by its own text, given what is written after it *)
 Fixpoint lits_ok (cf : config) (its : list pitem) (rest : text) : Prop :=
   match its with
   | [] => True
-  | PLit t :: r => lit_ok t (print_items cf r ++ rest) /\ lits_ok cf r rest
+  | PLit t :: r => pieces_ok (lit_pieces t) (print_items cf r ++ rest) /\ lits_ok cf r rest
   | _ :: r => lits_ok cf r rest
   end.
 
-Definition lits_plain (its : list pitem) : Prop :=
-  Forall (fun it => match it with PLit t => lit_plain t | _ => True end) its.
-
-Lemma lits_plain_ok : forall cf its rest, lits_plain its -> lits_ok cf its rest.
+(* String source: scanning at position |pre| reads the values back and returns the position
+   just after the written text *)
+Lemma scan_str_seq : forall cf its rest sits vs, cf_pct_measure cf = true ->
+  seq_reads cf its rest sits vs -> lits_ok cf its rest ->
+  forall pre acc,
+  scan_str cf (pre ++ print_items cf its ++ rest) (length pre) sits acc
+  = SOk (acc ++ vs) (length pre + length (print_items cf its)).
 Proof.
-  intros cf its rest. induction its as [|it its IH]; intros H; [exact I|].
-  inversion H as [|? ? Hi Hr]; subst. destruct it as [t | v | sp v]; cbn [lits_ok]; auto.
-  split; [left; now apply lit_plain_ends | auto].
+  intros cf its rest sits vs Hpct H. induction H as [rest | t its rest sits vs H IH | it si its rest sits v vs Hs Hc H IH];
+    intros Hl pre acc.
+  - simpl. rewrite app_nil_r. f_equal. lia.
+  - cbn [lits_ok] in Hl. destruct Hl as [Ht Hl'].
+    cbn [scan_str print_items flat_map print_item]. fold (print_items cf its).
+    rewrite <- (lit_pieces_text t) at 1. rewrite <- app_assoc.
+    rewrite (scan_lit_str_own cf _ _ Hpct Ht). rewrite (lit_pieces_text t).
+    replace (pre ++ (t ++ print_items cf its) ++ rest) with ((pre ++ t) ++ print_items cf its ++ rest)
+      by now rewrite <- !app_assoc.
+    replace (length pre + length t)%nat with (length (pre ++ t)) by (rewrite app_length; lia).
+    rewrite IH by assumption. f_equal. rewrite !app_length. lia.
+  - assert (Hl' : lits_ok cf its rest).
+    { destruct it as [t | v0 | sp v0]; cbn [lits_ok] in Hl; [destruct Hl as [_ Hl]|..]; exact Hl. }
+    assert (Hskip : skipn (length pre) (pre ++ print_items cf (it :: its) ++ rest)
+                    = print_item cf it ++ print_items cf its ++ rest).
+    { rewrite skipn_length_app. unfold print_items. cbn [flat_map]. now rewrite <- app_assoc. }
+    assert (Hnext : forall acc', scan_str cf (pre ++ print_items cf (it :: its) ++ rest)
+                      (length pre + length (print_item cf it)) sits acc'
+                    = SOk (acc' ++ vs) (length pre + length (print_items cf (it :: its)))).
+    { intros acc'.
+      replace (pre ++ print_items cf (it :: its) ++ rest)
+        with ((pre ++ print_item cf it) ++ print_items cf its ++ rest)
+        by (unfold print_items; cbn [flat_map]; now rewrite <- !app_assoc).
+      replace (length pre + length (print_item cf it))%nat with (length (pre ++ print_item cf it))
+        by (rewrite app_length; lia).
+      rewrite IH by assumption. f_equal. unfold print_items. cbn [flat_map]. rewrite !app_length. lia. }
+    destruct si as [t | ty | sp]; [exfalso; now apply (Hs t) | |]; cbn [scan_str]; cbn [conv_reads] in Hc;
+      rewrite Hskip, Hc, Hnext; f_equal; rewrite <- app_assoc; reflexivity.
 Qed.
 
-Lemma scan_file_seq : forall cf its rest sits vs, seq_reads cf its rest sits vs -> lits_ok cf its rest ->
+Lemma scan_file_seq : forall cf its rest sits vs, cf_pct_measure cf = true ->
+  seq_reads cf its rest sits vs -> lits_ok cf its rest ->
   forall pos acc,
   scan_file cf (print_items cf its ++ rest) pos sits acc
   = SOk (acc ++ vs) (pos + length (print_items cf its)).
 Proof.
-  intros cf its rest sits vs H. induction H as [rest | t its rest sits vs H IH | it si its rest sits v vs Hs Hc H IH];
+  intros cf its rest sits vs Hpct H. induction H as [rest | t its rest sits vs H IH | it si its rest sits v vs Hs Hc H IH];
     intros Hl pos acc.
   - simpl. rewrite app_nil_r. f_equal. lia.
   - cbn [lits_ok] in Hl. destruct Hl as [Ht Hl'].
-    cbn [scan_file print_items flat_map print_item]. rewrite <- app_assoc.
-    fold (print_items cf its). rewrite match_lit_ok by assumption.
-    rewrite IH by assumption. f_equal. unfold print_items. rewrite app_length. lia.
+    cbn [scan_file print_items flat_map print_item]. fold (print_items cf its).
+    rewrite <- (lit_pieces_text t) at 1. rewrite <- app_assoc.
+    rewrite (scan_lit_file_own cf _ _ Hpct Ht). rewrite (lit_pieces_text t).
+    rewrite IH by assumption. f_equal. rewrite app_length. lia.
   - assert (Hl' : lits_ok cf its rest).
     { destruct it as [t | v0 | sp v0]; cbn [lits_ok] in Hl; [destruct Hl as [_ Hl]|..]; exact Hl. }
     assert (Hnext : forall acc', scan_file cf (skipn (length (print_item cf it)) (print_items cf (it :: its) ++ rest))
@@ -575,7 +629,8 @@ Qed.
 (* what the proofs need from the C text (Generated.v) *)
 Record config_ok (cf : config) : Prop := {
   ok_tables : esc_tables_ok (cf_show_esc cf) (cf_look_esc cf) = true;
-  ok_cont : cf_look_cont cf = true }.
+  ok_cont : cf_look_cont cf = true;
+  ok_pct : cf_pct_measure cf = true }.
 
 Definition int64 (z : Z) : Prop := (- two63 <= z < two63)%Z.
 
@@ -590,7 +645,7 @@ Definition ends_token (v : value) (after : text) : Prop :=
 Lemma show_value_reads : forall cf v after, config_ok cf -> showable v -> ends_token v after ->
   look_value cf (ty_of v) (show_value cf v ++ after) = Some (v, length (show_value cf v)).
 Proof.
-  intros cf v after [Ht Hc] Hv He. destruct v as [z | b | s]; [| destruct Hv |].
+  intros cf v after [Ht Hc _] Hv He. destruct v as [z | b | s]; [| destruct Hv |].
   - cbn [ty_of look_value show_value]. now apply int_li_roundtrip.
   - cbn [ty_of look_value show_value]. rewrite Hc.
     rewrite string_roundtrip by assumption. reflexivity.
@@ -623,12 +678,13 @@ Qed.
 (* C15 for sequences of Strings and Ints written with %$ and separated by literal text, read back
    from a String at any start position ... *)
 Theorem show_seq_roundtrip_string : forall cf its pre rest, config_ok cf -> show_seq_ok cf its rest ->
+  lits_ok cf its rest ->
   scan_str cf (fst (print_to_string cf pre (length pre) its) ++ rest) (length pre) (map sitem_of its) []
   = SOk (values_of its) (snd (print_to_string cf pre (length pre) its)).
 Proof.
-  intros cf its pre rest Hcf H. unfold print_to_string. cbn [fst snd].
+  intros cf its pre rest Hcf H Hl. unfold print_to_string. cbn [fst snd].
   rewrite firstn_all, <- app_assoc.
-  now rewrite (scan_str_seq cf its rest _ _ (show_seq_reads cf its rest Hcf H)).
+  now rewrite (scan_str_seq cf its rest _ _ (ok_pct _ Hcf) (show_seq_reads cf its rest Hcf H) Hl).
 Qed.
 
 (* ... and from a File (the stream stands just after the bytes written before) *)
@@ -640,7 +696,7 @@ Theorem show_seq_roundtrip_file : forall cf its old rest, config_ok cf -> show_s
 Proof.
   intros cf its old rest Hcf H Hl. unfold print_to_file. cbn [fst snd].
   rewrite <- app_assoc, skipn_length_app.
-  now rewrite (scan_file_seq cf its rest _ _ (show_seq_reads cf its rest Hcf H) Hl).
+  now rewrite (scan_file_seq cf its rest _ _ (ok_pct _ Hcf) (show_seq_reads cf its rest Hcf H) Hl).
 Qed.
 
 (* the code as found (no `continue` after the escape switch) does not round-trip: D7 *)
